@@ -669,6 +669,12 @@ void Node::process_pending_fetches() {
             if (now >= state.next_attempt) {
                 note_dispatch_end(state);
                 state.in_flight = false;
+                // The request went unanswered. If it was the last attempt allowed, the fetch has failed.
+                const auto attempt_limit = static_cast<std::size_t>(config_.fetch_retry_attempt_limit);
+                if (attempt_limit > 0 && state.attempts >= attempt_limit) {
+                    completed.push_back(key);
+                    continue;
+                }
             } else {
                 ++inflight_count;
                 continue;
